@@ -8,8 +8,15 @@ package sim
 
 // haltSignature: which listed defect, if any, explains a panic in a block hook.
 func haltSignature(w *World, phase, msg string) string {
+	for _, p := range haltPredicates {
+		if sig := p(w, phase, msg); sig != "" {
+			return sig
+		}
+	}
 	return ""
 }
+
+var haltPredicates []func(w *World, phase, msg string) string
 
 // acceptSignature: a transaction the statement forbids was accepted.
 func acceptSignature(w *World, bt *BuiltTx, prop string) string {
